@@ -86,6 +86,11 @@ def build(tier):
         h.root('new__' + t, '<S>(%s) -> %s' % (', '.join('%s: S' % c for c in comps), Tn), '%s::new(%s)' % (T, ', '.join(comps)), ('value', [ss('a%d' % i) for i in range(n)]), rule='K1 copy provenance')
         h.root('map__' + t, '<S, U, F: FnMut(S) -> U>(a: %s, f: F) -> %s<U>' % (Tn, T), 'a.map(f)', ('mapzip', comps, 1))
         h.root('zip__' + t, '<S, S2, S3, F: FnMut(S, S2) -> S3>(a: %s, b: %s<S2>, f: F) -> %s<S3>' % (Tn, T, T), 'a.zip(b, f)', ('mapzip', comps, 2))
+    # free constructor functions
+    for n, (T, comps) in VEC.items():
+        h.root('vec%d' % n, '<S>(%s) -> %s<S>' % (', '.join('%s: S' % c for c in comps), T), 'cgmath::vec%d(%s)' % (n, ', '.join(comps)), ('value', [ss('a%d' % i) for i in range(n)]), rule='K1 copy provenance')
+    for n, (T, comps) in PNT.items():
+        h.root('point%d' % n, '<S>(%s) -> %s<S>' % (', '.join('%s: S' % c for c in comps), T), 'cgmath::point%d(%s)' % (n, ', '.join(comps)), ('value', [ss('a%d' % i) for i in range(n)]), rule='K1 copy provenance')
     # extend / truncate
     g = '<S: BaseNum>'
     v2, v3, v4 = sv('a0', 2), sv('a0', 3), sv('a0', 4)
